@@ -32,7 +32,8 @@ func (eng) Rule() string {
 		"arriving forwarded call until the next one has been applied - a schedule the scheduler may produce, since every " +
 		"non-flat event is forwarded in its own goroutine), busy (the target is parked inside a handler while the burst " +
 		"runs, then released). Local targets and NetworkMachine targets over a loopback RPC pair (with a stalled link for " +
-		"the never-blocks clause). Judged at joint quiescence: every forwarded call the source's handlers made has been " +
+		"the never-blocks clause); errpipe: plain and flat pipes into an Err-prefixed target state with the target already in Exception or not; " +
+		"optional: BindConnected with every subset of its four target states left out. Judged at joint quiescence: every forwarded call the source's handlers made has been " +
 		"applied. An evaluation is one bound state pair (or the whole set for BindAny) compared; a distinct item is a " +
 		"distinct (bind, schedule, target kind, final source activity)."
 }
